@@ -8,7 +8,7 @@ ID = "C02"
 LEVEL = "exploration"
 TECHNIQUE = "deterministic simulation: seeded step scheduler, unique payload per user write (provenance), corrupt-read fault injection at the provider seam"
 RULE = ("each run = flavour pair, two-sided history (1-7 ops) over a 2-file/1-folder alphabet so that same-path creates, edit/edit, edit/delete, "
-        "delete/recreate and file-vs-folder clashes are the norm, schedule style eager|batched|bursty|split; family 'corrupt' additionally marks one synced "
+        "delete/recreate and file-vs-folder clashes are the norm, schedule style eager|batched|bursty|split; family 'rename-over' (every tenth run): x and a synchronised, one user deletes x and renames a onto x while the other edits x; family 'corrupt' additionally marks one synced "
         "object unreadable (download raises CloudCorruptError from then on). Oracle at quiet: every payload a user wrote and no user destroyed exists byte for "
         "byte in a readable file on some side; trees converge modulo .conflicted (fault-free family); in the corrupt family the peer's good copy survives "
         "unless a user deleted/overwrote/renamed over a readable file holding it. distinct = (history shape, schedule string, flavour, family); non-trivial = >=1 engine write and >=1 interleaved step.")
